@@ -506,6 +506,23 @@ func runC18(c *Ctx) {
 					la := map[string]bool{}
 					for _, b := range cc.Body {
 						ast.Inspect(b, func(m ast.Node) bool {
+							// switch form: switch l.peekChar() { case 'x': ... }
+							if sw2, ok := m.(*ast.SwitchStmt); ok && sw2.Tag != nil {
+								if call, ok := sw2.Tag.(*ast.CallExpr); ok {
+									if se, ok := call.Fun.(*ast.SelectorExpr); ok && se.Sel.Name == "peekChar" {
+										for _, st2 := range sw2.Body.List {
+											for _, e := range st2.(*ast.CaseClause).List {
+												if tv, ok := p.TypesInfo.Types[e]; ok && tv.Value != nil && tv.Value.Kind() == constant.Int {
+													if v, ok := constant.Int64Val(tv.Value); ok && v > 0 && v < 128 {
+														la[string(rune(v))] = true
+													}
+												}
+											}
+										}
+									}
+								}
+								return true
+							}
 							be, ok := m.(*ast.BinaryExpr)
 							if !ok || (be.Op != token.EQL && be.Op != token.NEQ) {
 								return true
